@@ -949,6 +949,12 @@ class SymWalker:
                 self.loop_stack.append(LoopCtx(st, it, norm(st.target) if is_for else None, s.reach))
                 body_state = State(dict(env0), s.reach)
                 body_state.env[self.LAST] = ast.Constant("iteration start")
+                if is_for:
+                    _t, it, binds = canon_loop_header(st.target, it)
+                    for k_, v_ in binds.items():
+                        body_state.env[k_] = v_         # an alias of X[i], even when the object is mutated through it
+                    self.loop_stack[-1].iter = it
+                    self.loop_stack[-1].target = norm(_t)
                 if not is_for:
                     self.env = body_state.env
                     cond = self.atomize(st.test)
@@ -1102,6 +1108,16 @@ class SymWalker:
                 f = n.func
                 if isinstance(f, ast.Attribute) and isinstance(f.value, ast.Name) and f.attr in MUTATORS and f.value.id in self.env:
                     self.env.pop(f.value.id, None)
+
+
+def canon_loop_header(target, it):
+    """for i, x in enumerate(X)  ==  for i in range(len(X)) with x = X[i]  ->  (target, iter, {name: value})"""
+    if isinstance(it, ast.Call) and isinstance(it.func, ast.Name) and it.func.id == "enumerate" and len(it.args) == 1 and not it.keywords \
+            and isinstance(target, (ast.Tuple, ast.List)) and len(target.elts) == 2 and all(isinstance(x, ast.Name) for x in target.elts):
+        i, x = target.elts
+        new_it = ast.Call(ast.Name("range", ast.Load()), [ast.Call(ast.Name("len", ast.Load()), [it.args[0]], [])], [])
+        return ast.Name(i.id, ast.Store()), new_it, {x.id: ast.Subscript(copy.deepcopy(it.args[0]), ast.Name(i.id, ast.Load()), ast.Load())}
+    return target, it, {}
 
 
 def _replace_node(root, target, by):
@@ -1618,7 +1634,8 @@ def summarize(func_node, canon, leaf=None, keep=()):
         if isinstance(n, ast.For):
             for s in w.loop_in.get(id(n), []):
                 w.env = s.env
-                raw.append(("loop-iter", [hdr, " for ", n.target, " in ", w.sub(n.iter)], s.reach))
+                t_, i_, _b = canon_loop_header(n.target, w.sub(n.iter))
+                raw.append(("loop-iter", [hdr, " for ", t_, " in ", i_], s.reach))
         else:
             t_ = w.tests.get(id(n)) or n.test
             if isinstance(t_, ast.Constant):
@@ -1749,42 +1766,138 @@ def _truth_table_text(f):
     return "%s#%x" % ("; ".join(ops), bits)
 
 
+def _set_atoms(fs):
+    out = []
+
+    def collect(f):
+        if f in (True, False):
+            return
+        if f[0] == "set":
+            out.append(f[1])
+        elif f[0] == "not":
+            collect(f[1])
+        elif f[0] in ("and", "or"):
+            for g in f[1]:
+                collect(g)
+    for f in fs:
+        collect(f)
+    return out
+
+
+def _world(fs):
+    """finite set of subject values that decides every value-set atom of the formulas: the domain of explicit
+    sets, or one representative per region between the interval endpoints; None when the atoms cannot be put on
+    one line (numeric and symbolic endpoints mixed)"""
+    sets = _set_atoms(fs)
+    if not sets:
+        return [None]
+    if all(isinstance(x, gi.FinSet) for x in sets):
+        dom = set()
+        for x in sets:
+            dom |= set(x.domain)
+        try:
+            return sorted(dom)
+        except TypeError:
+            return sorted(dom, key=repr)
+    if all(isinstance(x, gi.IntSet) for x in sets):
+        pts = set()
+        kinds = set()
+        for x in sets:
+            for lo, hi in x.ivs:
+                for p_ in (lo, hi):
+                    if p_ is None or p_[1] is None:
+                        continue
+                    kinds.add(p_[0])
+                    pts.add(p_[1])
+        if len(kinds) > 1:
+            return None
+        k = kinds.pop() if kinds else 0
+        reps = set()
+        for v in pts:
+            reps |= {v - 1, v, v + 1}
+        if not reps:
+            reps = {0}
+        return [(k, v) for v in sorted(reps)]
+    return None
+
+
+def _member(setv, w):
+    if isinstance(setv, gi.FinSet):
+        return w in setv.m
+    k, v = w
+    for lo, hi in setv.ivs:
+        if (lo is None or lo[1] is None or lo[1] <= v) and (hi is None or hi[1] is None or v <= hi[1]):
+            return True
+    return False
+
+
 def _bitparallel(fs):
-    """truth tables of several formulas over their joint atoms as big integers (one bit per assignment);
-    value-set atoms are treated as independent propositions named by their repr"""
+    """truth tables of several formulas over their joint opaque atoms x the world of subject values, as big
+    integers (one bit per (assignment, subject value))"""
     atoms = []
 
     def collect(f):
         if f in (True, False):
             return
-        if f[0] in ("op", "set"):
-            k = repr(f)
-            if k not in atoms:
-                atoms.append(k)
+        if f[0] == "op":
+            if f[1] not in atoms:
+                atoms.append(f[1])
         elif f[0] == "not":
             collect(f[1])
-        else:
+        elif f[0] in ("and", "or"):
             for g in f[1]:
                 collect(g)
     for f in fs:
         collect(f)
+    world = _world(fs)
+    if world is None:
+        return None
     n = len(atoms)
-    if n > 22:
+    D = len(world)
+    if n > 22 or (1 << n) * D > (1 << 24):
         return None
     size = 1 << n
-    full = (1 << size) - 1
+    full_a = (1 << size) - 1
+    block = (1 << D) - 1
+    total = size * D
+    full = (1 << total) - 1
+    rep = full // block if D > 1 else full          # 1 at the start of every block
     masks = {}
     for i, a in enumerate(atoms):
-        block = ((1 << (1 << i)) - 1) << (1 << i)
-        masks[a] = block * (full // ((1 << (1 << (i + 1))) - 1))
+        pat = (((1 << (1 << i)) - 1) << (1 << i)) * (full_a // ((1 << (1 << (i + 1))) - 1))
+        if D == 1:
+            masks[a] = pat
+        else:
+            m = 0
+            j = 0
+            p2 = pat
+            while p2:
+                if p2 & 1:
+                    m |= block << (j * D)
+                p2 >>= 1
+                j += 1
+            masks[a] = m
+    set_masks = {}
+
+    def set_mask(sv):
+        k = id(sv)
+        if k not in set_masks:
+            bits = 0
+            for j, wv in enumerate(world):
+                if _member(sv, wv):
+                    bits |= 1 << j
+            set_masks[k] = bits * rep
+        return set_masks[k]
 
     def ev(f):
         if f is True:
             return full
         if f is False:
             return 0
-        if f[0] in ("op", "set"):
-            return masks[repr(f)]
+        if f[0] == "op":
+            return masks[f[1]]
+        if f[0] == "set":
+            return set_mask(f[1])
         if f[0] == "not":
             return full ^ ev(f[1])
         if f[0] == "and":
@@ -1806,11 +1919,7 @@ def _equiv(f1, f2):
         r = _bitparallel([f1, f2])
         if r is not None:
             (a, b), full = r
-            if a == b:
-                return True
-            has_sets = "'set'" in repr(f1) or "'set'" in repr(f2)
-            if not has_sets:
-                return False
+            return a == b
         ops = set(gi.f_opaques(f1) if f1 not in (True, False) else []) | set(gi.f_opaques(f2) if f2 not in (True, False) else [])
         if len(ops) > 12:
             return False
@@ -1987,10 +2096,9 @@ def entails(a, b, univ=None, empty=None):
         return True
     if f is True:
         return False
-    if "'set'" not in repr(f):
-        r = _bitparallel([f])
-        if r is not None:
-            return r[0][0] == 0
+    r = _bitparallel([f])
+    if r is not None:
+        return r[0][0] == 0
     for asg in _assignments(f):
         if not gi.f_eval(f, asg, univ, empty).is_empty():
             return False
